@@ -168,7 +168,7 @@ def run(chk: common.Check, tier: str):
                 # the real analysis finds no left recursion: its own flags and a rank computed from its own first
                 # graph must pass the verified termination checker (Proofs/PegTotal.v)
                 tcases.append(f"({term}, {clist(res['nullable'], cstr)}, "
-                              f"{clist(sorted(_ranks(res['graph']).items()), lambda kv: f'({cstr(kv[0])}, {kv[1]}%nat)')})")
+                              f"{clist(sorted(A.ranks_from_graph(res['graph']).items()), lambda kv: f'({cstr(kv[0])}, {kv[1]}%nat)')})")
                 tdescs.append(desc)
             if res["kind"] == "ok" and "start" in g.rules:
                 names = list(A.permuted(text, None).rules)
